@@ -261,7 +261,7 @@ func genC17(tier string, rng *Rng) {
 	}
 	for n := 0; n < nm; n++ {
 		W, H := rng.Range(0, 72), rng.Range(0, 40)
-		if thorough && n%100 == 0 {
+		if thorough && rng.Intn(100) == 0 {
 			W, H = rng.Range(100, 300), rng.Range(60, 200)
 		}
 		pc, bc := rng.Intn(64), rng.Intn(64)
@@ -310,7 +310,7 @@ func genC17(tier string, rng *Rng) {
 		if rng.Intn(4) == 0 {
 			W = rng.Pick([]int{7, 8, 9, 15, 16, 17, 31, 32, 33})
 		}
-		if thorough && n%200 == 0 {
+		if thorough && rng.Intn(200) == 0 {
 			W, H = rng.Range(200, 300), rng.Range(100, 200)
 		}
 		if rng.Intn(40) == 0 {
